@@ -26,15 +26,17 @@ pub fn prop() -> Prop {
 /// (class, pattern bits as list of 1-based positions)
 fn pattern(rng: &mut Rng, idx: u64, nbits: usize) -> (&'static str, Vec<usize>) {
     let span = nbits - 5; // positions 6..=nbits
-    match idx % 4 {
+    match idx % 5 {
+        4 => ("overlay", vec![]), // filled in by the caller: parity field XOR an aircraft address
+        x if x > 4 => unreachable!(),
         0 => {
-            let k = (idx / 4) as usize % span;
+            let k = (idx / 5) as usize % span;
             ("bitflip-1", vec![6 + k])
         }
         1 => {
             // enumerate pairs (a<b) by index
             let npairs = span * (span - 1) / 2;
-            let mut k = (idx / 4) as usize % npairs;
+            let mut k = (idx / 5) as usize % npairs;
             let mut a = 0;
             while k >= span - 1 - a {
                 k -= span - 1 - a;
@@ -50,7 +52,7 @@ fn pattern(rng: &mut Rng, idx: u64, nbits: usize) -> (&'static str, Vec<usize>) 
                     combos.push((start, len));
                 }
             }
-            let (start, len) = combos[(idx / 4) as usize % combos.len()];
+            let (start, len) = combos[(idx / 5) as usize % combos.len()];
             let mut v = vec![start];
             for p in start + 1..start + len - 1 {
                 if rng.chance(0.5) { v.push(p); }
@@ -78,6 +80,10 @@ fn gen(rng: &mut Rng, idx: u64, _tier: Tier) -> Case {
     if rng.chance(0.3) { args.push("--relaxed".into()); }
     let d = *rng.pick(&[1i64, 5, 60, 600]);
     args.push(format!("--delete-after={}", d));
+    // options that must not weaken the check
+    if rng.chance(0.15) { for k in [11u32, 17, 18, 4] { if rng.chance(0.8) { args.push(format!("--filter={}", k)); } } }
+    if rng.chance(0.15) { args.push(format!("--log-messages={}", rng.pick(&[11u32, 17, 18]))); }
+    if rng.chance(0.1) { args.push("--downlink-log=/dev/null".into()); }
     let n = rng.range(4, 36) as usize;
     let kinds = [Kind::Df11, Kind::Ident, Kind::AirPos, Kind::AirPos, Kind::Vel12, Kind::Df4, Kind::Df5, Kind::Df0, Kind::SurfPos, Kind::Tc31, Kind::Df18, Kind::Df20(gen::Reg::B20), Kind::Df21(gen::Reg::B50), Kind::Gnss];
     let mut lines: Vec<(i64, Vec<u8>, String)> = vec![];
@@ -90,7 +96,7 @@ fn gen(rng: &mut Rng, idx: u64, _tier: Tier) -> Case {
         while bad_at.first() == Some(&i) {
             bad_at.remove(0);
             let a = rng.below(acs.len() as u64) as usize;
-            let k = *rng.pick(&[Kind::Df11, Kind::Df11, Kind::Ident, Kind::AirPos, Kind::Vel12, Kind::SurfPos, Kind::Df18, Kind::Tc31]);
+            let k = *rng.pick(&[Kind::Df11, Kind::Df11, Kind::Ident, Kind::AirPos, Kind::Vel12, Kind::Vel34, Kind::SurfPos, Kind::Df18, Kind::Df18, Kind::Tc31, Kind::Gnss, Kind::Tc28, Kind::Tc29, Kind::TcOther]);
             // sometimes corrupt the frame of an aircraft nobody has heard of yet
             let ghost_addr = (rng.bits(24) as u32).max(1);
             let mut ghost = gen::aircraft(rng, ghost_addr);
@@ -105,6 +111,14 @@ fn gen(rng: &mut Rng, idx: u64, _tier: Tier) -> Case {
             let (class, pos) = pattern(rng, idx.wrapping_mul(3).wrapping_add(sub), f.len() * 8);
             sub += 1;
             for p in &pos { modes::flip_bit(&mut f, *p); }
+            let class = if class == "overlay" {
+                // a squitter whose parity field is overlaid with an address (its own, or another aircraft's) as if
+                // it were an address/parity format - or with a small number
+                let n = f.len();
+                let ov = match rng.below(4) { 0 => modes::get_bits(&f, 9, 32) as u32, 1 => acs[rng.below(acs.len() as u64) as usize].icao, 2 => 0x80 << rng.below(17), _ => rng.range(128, 4000) as u32 };
+                f[n - 3] ^= (ov >> 16) as u8; f[n - 2] ^= (ov >> 8) as u8; f[n - 1] ^= ov as u8;
+                "bitflip-overlay"
+            } else { class };
             let deco = rng.chance(0.3);
             lines.push((gen::gap_us(rng, d).min(3_000_000), gen::line_of(rng, &f, deco), format!("corrupt:{}", class)));
         }
